@@ -1572,16 +1572,64 @@ func checkWideArith(c *core.Ctx, l *core.Ledger, dl []*ssa.Function, inD func(*s
 	l.Floor("WIDE-ARITH", 6)
 }
 
-var reProduct = regexp.MustCompile(`\((\w+(?:\([^()]*\))?)\*(\w+(?:\([^()]*\))?)\)`)
-
-// commuteNorm orders the operands of simple products, so that a*b and b*a render alike.
+// commuteNorm orders the operands of sums and products, so that a*b and b*a
+// (at any nesting depth) render alike. Sym renders a binary operation as
+// "(X op Y)"; every parenthesised group that splits at its top level at a
+// single '*' or '+' is such an operation.
 func commuteNorm(s string) string {
-	return reProduct.ReplaceAllStringFunc(s, func(m string) string {
-		sub := reProduct.FindStringSubmatch(m)
-		a, b := sub[1], sub[2]
-		if b < a {
-			a, b = b, a
+	var out strings.Builder
+	for i := 0; i < len(s); {
+		if s[i] != '(' {
+			out.WriteByte(s[i])
+			i++
+			continue
 		}
-		return "(" + a + "*" + b + ")"
-	})
+		// matching parenthesis
+		depth, j := 0, i
+		for ; j < len(s); j++ {
+			if s[j] == '(' {
+				depth++
+			} else if s[j] == ')' {
+				depth--
+				if depth == 0 {
+					break
+				}
+			}
+		}
+		if j >= len(s) {
+			out.WriteString(s[i:])
+			break
+		}
+		inner := s[i+1 : j]
+		// top-level operator
+		d, at, n := 0, -1, 0
+		for k := 0; k < len(inner); k++ {
+			switch inner[k] {
+			case '(':
+				d++
+			case ')':
+				d--
+			case '*', '+':
+				if d == 0 {
+					at = k
+					n++
+				}
+			case ',', ' ', '|':
+				if d == 0 {
+					n += 2 // an argument list or an alternative, not an operation
+				}
+			}
+		}
+		if n == 1 && at > 0 && at < len(inner)-1 {
+			a, b := commuteNorm(inner[:at]), commuteNorm(inner[at+1:])
+			if b < a {
+				a, b = b, a
+			}
+			out.WriteString("(" + a + string(inner[at]) + b + ")")
+		} else {
+			out.WriteString("(" + commuteNorm(inner) + ")")
+		}
+		i = j + 1
+	}
+	return out.String()
 }
